@@ -9,6 +9,10 @@ namespace Ro.Kernel
 def Ev.tid : Ev → Tid
   | .call t _ | .ret t _ _ | .cbBegin t _ _ | .cbEnd t _ _ | .drop t _ _ | .finRun t _ | .appended t _ | .raised t _ => t
 
+def Ev.isCall : Ev → Bool
+  | .call _ _ => true
+  | _ => false
+
 def Ev.isRet : Ev → Bool
   | .ret _ _ _ => true
   | _ => false
@@ -27,19 +31,19 @@ def closedLog (log : List Ev) : Bool := log.any Ev.closingRet
 theorem eff_log {sh sh' : Shared} {t : Tid} {th th0 : Thread} {hd : Head} {b : Bool}
     (h : Eff sh t th hd b sh' th0) :
     (sh'.log = sh.log ∧ th0.cur = th.cur) ∨
-    (∃ e, sh'.log = sh.log ++ [e] ∧ e.tid = t ∧ th0.cur = th.cur ∧ e.isRet = false ∧
+    (∃ e, sh'.log = sh.log ++ [e] ∧ e.tid = t ∧ th0.cur = th.cur ∧ (e.isRet = false ∧ e.isCall = false) ∧
         (e.isBegin = true → ∃ k, hd = .stmt (.callDest k) ∧ th.ctl.inside = false)) ∨
     (∃ c, hd = .finish ∧ th.cur = some c ∧ th0.cur = none ∧
         sh'.log = sh.log ++ [.ret t c (if th.ctl.panicking then .panicked else th.result)] ∧ sh'.status = sh.status) := by
   cases h
   case finishCall c hc => exact Or.inr (Or.inr ⟨c, rfl, hc, rfl, rfl, rfl⟩)
-  case cbBegin k hi => exact Or.inr (Or.inl ⟨_, rfl, rfl, rfl, rfl, fun _ => ⟨k, rfl, hi⟩⟩)
-  case cbEnd k hi => exact Or.inr (Or.inl ⟨_, rfl, rfl, rfl, rfl, fun h => by simp [Ev.isBegin] at h⟩)
-  case drop k => exact Or.inr (Or.inl ⟨_, rfl, rfl, rfl, rfl, fun h => by simp [Ev.isBegin] at h⟩)
-  case runTakenCons g gs ht => exact Or.inr (Or.inl ⟨_, rfl, rfl, rfl, rfl, fun h => by simp [Ev.isBegin] at h⟩)
-  case raiseCons p ps hp => exact Or.inr (Or.inl ⟨_, rfl, rfl, rfl, rfl, fun h => by simp [Ev.isBegin] at h⟩)
-  case append => exact Or.inr (Or.inl ⟨_, rfl, rfl, rfl, rfl, fun h => by simp [Ev.isBegin] at h⟩)
-  case runNow => exact Or.inr (Or.inl ⟨_, rfl, rfl, rfl, rfl, fun h => by simp [Ev.isBegin] at h⟩)
+  case cbBegin k hi => exact Or.inr (Or.inl ⟨_, rfl, rfl, rfl, ⟨rfl, rfl⟩, fun _ => ⟨k, rfl, hi⟩⟩)
+  case cbEnd k hi => exact Or.inr (Or.inl ⟨_, rfl, rfl, rfl, ⟨rfl, rfl⟩, fun h => by simp [Ev.isBegin] at h⟩)
+  case drop k => exact Or.inr (Or.inl ⟨_, rfl, rfl, rfl, ⟨rfl, rfl⟩, fun h => by simp [Ev.isBegin] at h⟩)
+  case runTakenCons g gs ht => exact Or.inr (Or.inl ⟨_, rfl, rfl, rfl, ⟨rfl, rfl⟩, fun h => by simp [Ev.isBegin] at h⟩)
+  case raiseCons p ps hp => exact Or.inr (Or.inl ⟨_, rfl, rfl, rfl, ⟨rfl, rfl⟩, fun h => by simp [Ev.isBegin] at h⟩)
+  case append => exact Or.inr (Or.inl ⟨_, rfl, rfl, rfl, ⟨rfl, rfl⟩, fun h => by simp [Ev.isBegin] at h⟩)
+  case runNow => exact Or.inr (Or.inl ⟨_, rfl, rfl, rfl, ⟨rfl, rfl⟩, fun h => by simp [Ev.isBegin] at h⟩)
   all_goals left
   all_goals first
     | exact ⟨rfl, rfl⟩
@@ -189,7 +193,7 @@ theorem ClosedInv.step {s s' : St} {t : Tid} (hl : LockInv s) (hi : ClosedInv s)
     · intro hc
       rcases hlog with ⟨h1, _⟩ | ⟨e, h1, _, _, h2, _⟩ | ⟨c', hf, hc', _, h1, h2⟩
       · rw [h1] at hc; exact hstat (hi.closed hc)
-      · have h2' : e.closingRet = false := by cases e <;> simp [Ev.isRet] at h2 <;> rfl
+      · have h2' : e.closingRet = false := by have h2 := h2.1; cases e <;> simp [Ev.isRet] at h2 <;> rfl
         rw [h1, closedLog_append, h2', Bool.or_false] at hc; exact hstat (hi.closed hc)
       · rw [h1, closedLog_append] at hc
         rw [h2]
